@@ -22,7 +22,7 @@ theorem wrap_framing (c : Ciphers) (hc : c.Lawful) (kb : KB) (hw : kb.header.WF)
        (∃ p, 1 ≤ p ∧ p ≤ bs ∧ pad = [80, 66] ++ hex2U (4 + p) ++ zerosS p ∧ n = kb.header.blocks.length + 1)) ∧
       (toHexU enc).all isUpperHexC = true ∧ (toHexU mac).all isUpperHexC = true ∧
       0 < enc.length ∧ enc.length % bs = 0 ∧ mac.length = ml := by
-  obtain ⟨bs, ml, n, blocks, hdr, enc, mac, clear, hbs, hml, hbs8, hbd, hhdr, hle, hs, henc, hmac, _, _, _⟩ :=
+  obtain ⟨bs, ml, n, blocks, hdr, enc, mac, clear, hbs, hml, hbs8, hbd, hhdr, hle, hs, henc, hmac, _, _, _, _⟩ :=
     (wrap_facts c hc kb key mask entropy s h).facts
   obtain ⟨h16, hpos, hb16⟩ := bs_dvd16 bs hbs8
   obtain ⟨body, pad, hbody, hblocks, hn99, hpad⟩ := blocksDump_shape kb.header.blocks bs n blocks hpos hb16 hbd
